@@ -471,3 +471,31 @@ def pivot_datatypes(perm, swap):
                     return f'pivoted-cell-not-of-announced-datatype ({column.name}: {column.datatype.__name__})'
         return 'ok'
     return native(run)
+
+
+@cond('C04.in-operands', quick=120,
+      bounds='x [NOT] IN y for x a column of each of int, str, Decimal, object (non-NULL cells) and y a column of each of int, str, Decimal, '
+             'date, bool, set, list, dict, object: either rejected at compile time or evaluated without a TypeError, giving NULL or a '
+             'boolean',
+      symbolic='(none)', enumerated='operand datatypes, negation', params={'i': int, 'j': int, 'neg': bool})
+def in_operands(i, j, neg):
+    lefts = [('int', int, 1), ('str', str, 'a'), ('Decimal', D, D('1')), ('object', object, 'a')]
+    rights = [('int', int, 1), ('str', str, 'abc'), ('Decimal', D, D('1')), ('date', datetime.date, datetime.date(2019, 1, 5)),
+              ('bool', bool, True), ('set', set, {'a'}), ('list', list, ['a', 1]), ('dict', dict, {'a': 1}), ('object', object, ('a',))]
+    (ln, lt, lv), (rn, rt, rv) = pick(lefts, i), pick(rights, j)
+
+    def run():
+        stmt = sel([target((ast.NotIn if neg else ast.In)(col('x'), col('y')), 'r')], 't')
+        conn = connect(t=HTable('t', [('x', lt), ('y', rt)], [(lv, rv)]))
+        try:
+            query = conn.compile(stmt)
+        except beanquery.CompilationError:
+            return 'ok'
+        try:
+            desc, rows = beanquery.query_execute.execute_query(query)
+        except TypeError as exc:
+            return f'type-error-at-execution ({ln} IN {rn}): ' + str(exc)[:50]
+        if not (rows[0][0] is None or rows[0][0] is True or rows[0][0] is False):
+            return 'value-not-of-announced-datatype'
+        return 'ok'
+    return native(run)
